@@ -23,6 +23,8 @@ vars == <<st, acc, acc7, sid, depth>>
 InitState == JsonDeserialize(IOEnv.INIT_STATE)
 
 Now == st.clock.ts
+\* banks annotated with the prices the risk engine reads for them now (oracle accounts of the projected state)
+Px(banks) == WithPx(banks, IF Has(st, "oracles") THEN st.oracles ELSE <<>>, Now)
 UserTok(a, bn) == st.accts[a].auth \o "." \o st.banks[bn].mint
 TokOf(s, t) == IF Has(s.tok, t) THEN s.tok[t].amount ELSE BZero
 SetTok(tok, t, amt) == [tok EXCEPT ![t] = [@ EXCEPT !.amount = amt]]
@@ -126,44 +128,49 @@ Withdraw(an, bn, amt, all) ==
                             ELSE LET b2 == ImplUpdateCache(r.b, Now)
                                      bal2 == SortBal(r.bal)
                                      banks2 == [st.banks EXCEPT ![bn] = b2]
-                                     h == ImplInitHealth(banks2, bal2)
+                                     h == ImplInitHealth(Px(banks2), bal2)
                                      ut == UserTok(an, bn)
                                  IN IF h # "ok" THEN Fail(a, h)
                                     ELSE LET post == [st EXCEPT !.banks = banks2, !.accts[an].bal = bal2,
                                                         !.tok = Xfer(@, MintOf(bn), b2.vault_liq, ut, pay)]
                                          IN Do(a, "ok", post, Obs(post, {bn}, {an}, {ut, b2.vault_liq}))
 
-Borrow(an, bn, amt) ==
-  LET a == [op |-> "borrow", acct |-> an, bank |-> bn, amount |-> amt]
-      b0 == st.banks[bn] ac == st.accts[an] g == st.groups[b0.group]
-  IN IF Disabled(an) \/ InRecv(an) THEN Fail(a, "AccountDisabled")
+\* lending_account_borrow as a function of the state: [r |-> "ok" or the error, post, obs]
+BorrowEval(an, bn, amt) ==
+  LET b0 == st.banks[bn] ac == st.accts[an] g == st.groups[b0.group]
+      F(err) == [r |-> err, post |-> st, obs |-> <<>>]
+  IN IF Disabled(an) \/ InRecv(an) THEN F("AccountDisabled")
      ELSE LET b1 == ImplAccrue(b0, g, Now) IN
-          IF IsErr(b1) THEN Fail(a, b1.err)
+          IF IsErr(b1) THEN F(b1.err)
           ELSE LET te == TagsErr(b1, ac.bal) se == BankStateErr(b1, "PausedOrReduce") IN
-               IF te # "ok" THEN Fail(a, te)
-               ELSE IF se # "ok" THEN Fail(a, se)
+               IF te # "ok" THEN F(te)
+               ELSE IF se # "ok" THEN F(se)
                ELSE LET foc == FindOrCreate(ac.bal, bn, b1.key, b1.cfg.asset_tag, Now) IN
-                    IF IsErr(foc) THEN Fail(a, foc.err)
+                    IF IsErr(foc) THEN F(foc.err)
                     ELSE LET preB == PreFee(MintOf(bn), BOfInt(amt))
                              x == FOfBig(preB)
                              rate == b1.cfg.ir.orig_fee
                              fee == IF BIsZero(rate) THEN BZero ELSE FMul(x, rate)
                              r == ImplDecrease(b1, foc[1], foc[2], BAdd(x, fee), "BorrowOnly", Now)
-                         IN IF IsErr(r) THEN Fail(a, r.err)
+                         IN IF IsErr(r) THEN F(r.err)
                             ELSE LET vault == TokOf(st, b1.vault_liq) IN
-                                 IF BLt(vault, preB) THEN Fail(a, "A1")
+                                 IF BLt(vault, preB) THEN F("A1")
                                  ELSE LET prate == g.fee_cache.rate
                                           pfee == IF BIsZero(prate) THEN BZero ELSE FMul(fee, prate)
                                           b2 == IF BIsZero(fee) THEN r.b
                                                 ELSE [r.b EXCEPT !.fee_grp = BAdd(@, BSub(fee, pfee)), !.fee_prog = BAdd(@, pfee)]
                                           bal2 == SortBal(r.bal)
-                                          h == ImplInitHealth([st.banks EXCEPT ![bn] = b2], bal2)
+                                          h == ImplInitHealth(Px([st.banks EXCEPT ![bn] = b2]), bal2)
                                           ut == UserTok(an, bn)
-                                      IN IF h # "ok" THEN Fail(a, h)
+                                      IN IF h # "ok" THEN F(h)
                                          ELSE LET b3 == ImplUpdateCache(b2, Now)
                                                   post == [st EXCEPT !.banks[bn] = b3, !.accts[an].bal = bal2,
                                                              !.tok = Xfer(@, MintOf(bn), b3.vault_liq, ut, preB)]
-                                              IN Do(a, "ok", post, Obs(post, {bn}, {an}, {ut, b3.vault_liq}))
+                                              IN [r |-> "ok", post |-> post, obs |-> Obs(post, {bn}, {an}, {ut, b3.vault_liq})]
+Borrow(an, bn, amt) ==
+  LET a == [op |-> "borrow", acct |-> an, bank |-> bn, amount |-> amt]
+      ev == BorrowEval(an, bn, amt)
+  IN IF ev.r = "ok" THEN Do(a, "ok", ev.post, ev.obs) ELSE Fail(a, ev.r)
 
 Accrue(bn) ==
   LET a == [op |-> "accrue", bank |-> bn]
@@ -236,9 +243,15 @@ Liquidate(lor, lee, abn, lbn, q) ==
           IN IF i = 0 THEN Fail(a, "LendingAccountBalanceNotFound")
              ELSE IF BLt(leeBal[i].l, IONE) THEN Fail(a, "NoLiabilitiesInLiabilityBank")
              ELSE IF ~BLt(leeBal[i].a, IONE) THEN Fail(a, "AssetsInLiabilityBank")
-             ELSE LET h0 == HealthComponents(banks1, leeBal, "Maint") pre == BSub(h0[1], h0[2]) IN
+             ELSE LET h0 == HealthComponents(Px(banks1), leeBal, "Maint") IN
+             IF IsErr(h0) THEN Fail(a, h0.err)
+             ELSE LET pre == BSub(h0[1], h0[2]) IN
              IF BIsPos(pre) THEN Fail(a, "HealthyAccount")
-             ELSE LET pa == ab1.cfg.fixed_price pl == lb1.cfg.fixed_price IN
+             \* seized collateral at its low-biased, the debt at its high-biased real-time price
+             ELSE LET pxa == Px(banks1)[abn].px pxl == Px(banks1)[lbn].px IN
+             IF pxa.load # "ok" THEN Fail(a, pxa.load) ELSE IF IsErr(pxa.cRT) THEN Fail(a, pxa.cRT.err)
+             ELSE IF pxl.load # "ok" THEN Fail(a, pxl.load) ELSE IF IsErr(pxl.cRT) THEN Fail(a, pxl.cRT.err)
+             ELSE LET pa == BSub(pxa.pRT, pxa.cRT.v) pl == BAdd(pxl.pRT, pxl.cRT.v) IN
              IF ~BIsPos(pa) THEN Fail(a, "ZeroAssetPrice")
              ELSE IF ~BIsPos(pl) THEN Fail(a, "ZeroLiabilityPrice")
              ELSE LET qF == FOfInt(q)
@@ -272,14 +285,14 @@ Liquidate(lor, lee, abn, lbn, q) ==
                                               banks2 == [st.banks EXCEPT ![abn] = abF, ![lbn] = lbF]
                                               leeBal2 == r4.bal
                                               k2 == FindSlot(leeBal2, lbn)
-                                              h1 == HealthComponents(banks2, leeBal2, "Maint")
-                                              post == BSub(h1[1], h1[2])
+                                              h1 == HealthComponents(Px(banks2), leeBal2, "Maint")
+                                              post == IF IsErr(h1) THEN BZero ELSE BSub(h1[1], h1[2])
                                               lorBal == SortBal(r3.bal)
                                           IN IF BLt(leeBal2[k2].l, IONE) THEN Fail(a, "ExhaustedLiability")
                                              ELSE IF ~BLt(leeBal2[k2].a, IONE) THEN Fail(a, "TooSeverePayoff")
                                              ELSE IF BIsPos(post) THEN Fail(a, "TooSevereLiquidation")
                                              ELSE IF BLe(post, pre) THEN Fail(a, "WorseHealthPostLiquidation")
-                                             ELSE LET hl == ImplInitHealth(banks2, lorBal) IN
+                                             ELSE LET hl == ImplInitHealth(Px(banks2), lorBal) IN
                                              IF hl # "ok" THEN Fail(a, hl)
                                              ELSE LET st2 == [st EXCEPT !.banks = banks2, !.accts[lee].bal = leeBal2, !.accts[lor].bal = lorBal,
                                                                 !.tok = Xfer(@, MintOf(lbn), lbF.vault_liq, lbF.vault_ins, feeT)]
@@ -291,8 +304,9 @@ Bankruptcy(an, bn, signer) ==
       se == BankStateErr(b0, "Paused")
   IN IF se # "ok" THEN Fail(a, se)
      ELSE IF ~Bit(b0.flags, BANK_PERMISSIONLESS_BAD_DEBT) /\ signer \notin {g.admin, g.risk_admin} THEN Fail(a, "Unauthorized")
-     ELSE LET hq == HealthComponents(st.banks, ac.bal, "Equity") IN
-     IF ~BLt(hq[1], hq[2]) THEN Fail(a, "AccountNotBankrupt")
+     ELSE LET hq == HealthComponents(Px(st.banks), ac.bal, "Equity") IN
+     IF IsErr(hq) THEN Fail(a, hq.err)
+     ELSE IF ~BLt(hq[1], hq[2]) THEN Fail(a, "AccountNotBankrupt")
      ELSE IF ~(BLt(hq[1], IC_BANKRUPT_THRESHOLD) /\ BGt(hq[2], IEPS)) THEN Fail(a, "AccountNotBankrupt")
      ELSE LET b1 == ImplAccrue(b0, g, Now) IN
      IF IsErr(b1) THEN Fail(a, b1.err)
